@@ -10,7 +10,7 @@
                  (structured), its Go source, and what the reference says must be observed (verdict,
                  reference literal, print type, default type) - all computed here by TLC.
                  Shard k of NShards exports the cases with id % NShards = k (parallel TLC processes). *)
-EXTENDS Const, TLC, Json
+EXTENDS Const, TLC, Json, Sequences
 CONSTANTS Mode, W, Tier, Seed, Shard, NShards, N2
 
 (* ------------------------------------------------------------------ boundary literals (generated table) *)
@@ -239,11 +239,19 @@ Depth2(gs, j, n1) ==
        [] OTHER -> Bin(o, t, Depth1At(gs, Rnd(j, 7, n1) + 1))
 TreeOf(gs, id, n1) == IF id <= n1 THEN Depth1At(gs, id) ELSE Depth2(gs, id - n1, n1)
 
-\* the exported case: everything the driver splices comes from the reference
+\* the exported case: everything the driver splices comes from the reference.  A depth-2 case also carries its
+\* non-leaf operands as `kids` (observed on their own by the driver), so that the judge can attribute a failure of
+\* the whole expression to the operand that already fails.
+Observe(t) == LET r == Eval(t) IN
+              [expr |-> t, src |-> Show(t), reflit |-> RefLit(r), vt |-> PrintType(r), dt |-> IF DynObservable(r) THEN 1 ELSE 0, kids |-> <<>>]
+IsDeep(t) == t.k \in {"un", "bin"} \/ (t.k = "conv" /\ t.a.k # "lit")
+Operands(t) == IF t.k = "bin" THEN <<t.a, t.b>> ELSE IF t.k = "lit" THEN <<>> ELSE <<t.a>>
+KidsOf(t) == LET ds == SelectSeq(Operands(t), IsDeep) IN [i \in 1..Len(ds) |-> Observe(ds[i])]
 CaseOf(gs, id, n1) ==
   LET t == TreeOf(gs, id, n1) r == Eval(t) IN
   [id |-> id, expr |-> t, src |-> Show(t), rst |-> r.st, rcls |-> r.cls, rty |-> r.ty, rchk |-> IF r.chk THEN 1 ELSE 0,
-   reflit |-> RefLit(r), vt |-> PrintType(r), dt |-> IF DynObservable(r) THEN 1 ELSE 0]
+   reflit |-> RefLit(r), vt |-> PrintType(r), dt |-> IF DynObservable(r) THEN 1 ELSE 0,
+   kids |-> IF id <= n1 THEN <<>> ELSE KidsOf(t)]
 \* N2 depth-2 cases follow the N1 depth-1 cases; shard k exports the ids with id % NShards = k
 CasesOf(gs) ==
   LET n1 == SumN(gs, 1)
